@@ -46,7 +46,32 @@ def direct_cases(tier, seed):
         if rng.random() < 0.5:
             s += [0x61, 0x0a]
         cases.append(("1 %s" % encb(utf8(s)), s, True))
+    # the scripted validator (every verdict, errors included): ## error, !! invalid with a message, ~~ invalid with an
+    # empty message, ?? invalid without message, trailing backslash incomplete, ok valid with a message
+    frag = [[0x23, 0x23], [0x21, 0x21], [0x7e, 0x7e], [0x3f, 0x3f], [0x5c], [0x6f, 0x6b], [0x61], [0x62], [0x20], [0xe9],
+            [0x23], [0x21], [0x08], [0x61], [0x78]]
+    for k in range(n // 4):
+        s = []
+        for _ in range(rng.randint(1, 6)):
+            for _ in range(rng.randint(0, 4)):
+                s += rng.choice(frag)
+            s += rng.choice([[0x0a], [0x0a], [0x0d, 0x0a]])
+        if rng.random() < 0.3:
+            s += rng.choice(frag)                 # a last line without terminator
+        cases.append(("2 %s" % encb(utf8(s)), s, 2))
     return cases
+
+
+def script_verdict(s):
+    def has(t):
+        return any(s[i:i + len(t)] == t for i in range(len(s) - len(t) + 1))
+    if has([0x23, 0x23]):
+        return "error"
+    if has([0x21, 0x21]) or has([0x7e, 0x7e]) or has([0x3f, 0x3f]):
+        return "invalid"
+    if s and s[-1] == 0x5c:
+        return "incomplete"
+    return "valid"
 
 
 def graphemes_impl(exe, strs, tmp):
@@ -56,6 +81,18 @@ def graphemes_impl(exe, strs, tmp):
         o = o.split(" BACKWARD")[0]
         res.append([] if o == "_" else [dec(t) for t in o.split(",")])
     return res
+
+
+def split_lines(s):
+    parts, cur = [], []
+    for c in s:
+        cur.append(c)
+        if c == 0x0a:
+            parts.append(cur)
+            cur = []
+    if cur:
+        parts.append(cur)
+    return parts
 
 
 def brackets(s):
@@ -70,14 +107,24 @@ def brackets(s):
     return "valid" if not st else "incomplete"
 
 
+def c13_direct(res, exe, driver, tier, seed, tmp):
+    """C13, non-terminal input: the validator cases of the direct stream (bracket matcher and scripted verdicts)"""
+    cases = [c for c in direct_cases(tier, seed) if c[2]]
+    run_direct_cases(res, exe, driver, cases, tmp, "direct-validate")
+    return len(cases)
+
+
 def c18_corr(res, exe, driver, tier, seed, tmp):
     p_seg.seg_corr(res, exe, driver, "quick", seed, tmp)
-    cases = direct_cases(tier, seed)
+    run_direct_cases(res, exe, driver, direct_cases(tier, seed), tmp, "direct")
+
+
+def run_direct_cases(res, exe, driver, cases, tmp, stream):
     lines = [c[0] for c in cases]
     impl = run_impl(exe, "direct", lines, tmp)
     if driver:
         model = run_model(driver, "direct", lines, tmp)
-        compare(res, "direct", lines, impl, model)
+        compare(res, stream, lines, impl, model)
     res.evaluations += len(cases)
     # oracle (no validator): the property statement evaluated with the implementation's own segmentation
     exp_lines = []
@@ -122,6 +169,34 @@ def c18_corr(res, exe, driver, tier, seed, tmp):
             exp = ["L:" + enc(l) for l in expected.get(k, [])] + ["EOF"]
             if toks != exp:
                 why = "lines returned %s, expected %s" % (" ".join(toks)[:300], " ".join(exp)[:300])
+        elif v == 2:
+            # every line returned is accepted by the validator; a validator error is reported to the caller exactly where
+            # the text read so far makes the validator fail (reference: lines without backspaces only)
+            for t in toks:
+                if t.startswith("L:") and script_verdict(dec(t[2:])) != "valid":
+                    why = "returned a line the validator does not accept: %s" % t[:200]
+            if toks and toks[-1] != "EOF":
+                why = "did not end with EOF"
+            if not why and 0x08 not in s:
+                exp, acc = [], []
+                for part in split_lines(s):
+                    body = part[:-1] if part and part[-1] == 0x0a else part
+                    cr = bool(body) and body[-1] == 0x0d and part[-1:] == [0x0a]
+                    if cr:
+                        body = body[:-1]
+                    cur = acc + body
+                    vd = script_verdict(cur)
+                    if vd == "valid":
+                        exp.append("L:" + enc(cur)); acc = []
+                    elif vd == "error":
+                        exp.append("ERR"); acc = []
+                    elif vd == "invalid":
+                        acc = cur
+                    else:
+                        acc = cur + ([0x0d] if cr else []) + ([0x0a] if part[-1:] == [0x0a] else [])
+                exp.append("EOF")
+                if toks != exp:
+                    why = "scripted validator: returned %s, expected %s" % (" ".join(toks)[:300], " ".join(exp)[:300])
         else:
             for t in toks:
                 if t.startswith("L:") and brackets(dec(t[2:])) != "valid":
@@ -129,16 +204,21 @@ def c18_corr(res, exe, driver, tier, seed, tmp):
             if toks and toks[-1] != "EOF":
                 why = "did not end with EOF"
         if why:
-            res.oracle_failures.append({"stream": "direct", "case": line, "impl": o, "why": why})
+            res.oracle_failures.append({"stream": stream, "case": line, "impl": o, "why": why})
         if 0x08 in s and (0x0a in s):
             res.nontrivial.add(line)
         if s.count(0x301) >= 128:
             big += 1
+    if stream != "direct":
+        return
     res.rule = ("direct stream: one child process per case with stdin a pipe; valid UTF-8 streams over {a,b,brackets,LF,CR,"
                 "CRLF,backspace,2/3/4-byte chars,combining marks,ZWJ,RI,Indic} with clusters of up to 400 bytes followed by "
-                "backspace; with (40%) and without the bracket validator; reads repeated until end-of-file. Oracle without "
+                "backspace; with (40%) and without the bracket validator, and with a scripted validator giving every verdict "
+                "(error, invalid with / without / with empty message, incomplete, valid with message); reads repeated until "
+                "end-of-file. Oracle without "
                 "validator: lines split at LF, LF/CRLF removed, backspaces applied over the crate's own grapheme segmentation. "
                 "Non-trivial = the stream has both a backspace and a line break. Also runs the seg stream (model segmentation "
                 "vs unicode-segmentation).")
-    res.distribution = {"with_validator": sum(1 for c in cases if c[2]), "clusters_over_255_bytes": big}
+    res.distribution = {"with_validator": sum(1 for c in cases if c[2]), "scripted_validator": sum(1 for c in cases if c[2] == 2),
+                        "clusters_over_255_bytes": big}
     res.samples = [{"case": c[0][:200], "impl": o[:200]} for c, o in list(zip(cases, impl))[:3]]
